@@ -86,6 +86,20 @@ def plugin_timeout_ms():
     return int(m.group(1)) if m else 5000
 
 
+def timeout_plugin_case(tag, T):
+    """a plugin that outlives the per-plugin timeout between plugins that answer: exactly one failure diagnostic
+    in its place, every other diagnostic present, annotation order kept"""
+    names, expect = [], []
+    for j, (dur, kind) in enumerate([(0, "ok"), (T + 1500, "ok"), (int(0.3 * T), "ok"), (0, "exit1"), (50, "ok")]):
+        name = "c18t%sp%d" % (tag, j)
+        msgs = ["%s-diag%d" % (name, t) for t in range(2)]
+        C.write_plugin(name, msgs, sleep_ms=dur, kind=kind)
+        names.append(name)
+        expect += msgs if (kind == "ok" and dur <= T) else ["FAILED:" + name]
+    vcl = "sub vcl_recv {\n" + "".join("  // @plugin: %s\n" % nm for nm in names) + '  set req.http.X-C18 = "1";\n}\n'
+    return vcl, expect, {"vcl": vcl, "procs": 4}
+
+
 def slow_plugin_case(tag, durations_ms):
     """NUMBER and DURATION of plugins: many plugins on one statement, each well within the per-plugin timeout,
     their SUM far beyond it; every diagnostic must be reported, nothing may be reported as failed"""
@@ -176,12 +190,27 @@ def run(ctx):
     nthreads = 3
     groups = [slow_cases[g::nthreads] for g in range(nthreads)]
     bg_conc = [Background([race, "conc"], [json.dumps(c[2]) for c in grp], env) for grp in groups if grp]
-    slow_lint = [slow_plugin_case("a", [int(0.48 * T)] * 10)]
+    slow_lint = [slow_plugin_case("a", [int(0.48 * T)] * 10), timeout_plugin_case("a", T)]
     if thorough:
         slow_lint += [slow_plugin_case("b", [int(0.6 * T)] * 6), slow_plugin_case("c", [int(0.7 * T)] * 8),
                       slow_plugin_case("d", [int(T * f) for f in (0, 0.1, 0.2, 0.3, 0.4, 0.5, 0.6, 0.7, 0.8, 0.05)])]
     bg_lint = Background([race, "conc-lint"], [json.dumps(c[2]) for c in slow_lint], env)
-    for t in bg_conc + [bg_lint]:
+    # two simulators in one process share nothing but package-level state (translator: globals_written_after_init)
+    _, ireq2, _ = S.model_request([S.plain_variant()], [{"path": "/g%d" % i} for i in range(12)])
+    conc2_reqs = [json.dumps(dict(json.loads(ireq2), procs=pr)) for pr in PROCS] * (6 if thorough else 2)
+    bg_conc2 = Background([race, "conc2"], conc2_reqs, env)
+    # actual-response mode (falco simulate as a proxy): every client must get the answer to ITS request
+    actual_cases = []
+    for b in range(60 if thorough else 12):
+        n = rng.choice([4, 8, 12, 16])
+        vs = [S.plain_variant(), S.plain_variant({"recv": "r-pass"})]
+        reqs = [{"path": "/q%d" % rng.randrange(n), "v": rng.choice([0, 0, 1]), "maxage": 60} for _ in range(n)]
+        _, ireq, _ = S.model_request(vs, reqs)
+        d = json.loads(ireq)
+        d.update({"procs": PROCS[b % 4], "jitter_us": rng.choice([0, 100, 1000]), "seed": b, "actual": True})
+        actual_cases.append((reqs, d))
+    bg_actual = Background([race, "conc"], [json.dumps(c[1]) for c in actual_cases], env)
+    for t in bg_conc + [bg_lint, bg_conc2, bg_actual]:
         t.start()
     irep = V.run_batch([race, "conc"], [json.dumps(c[2]) for c in cases], hang_s=120, env=env)
     for t, grp in zip(bg_conc, [g for g in groups if g]):
@@ -279,20 +308,58 @@ def run(ctx):
                 ctx.violation("%d concurrent requests: no one-at-a-time order (all %d permutations tried) explains the responses and the final state" % (len(todo[k][1]), len(ms)),
                               dict(todo[k][5], impl=ms[0]))
 
+    # ---------------- two simulators, actual responses
+    bg_conc2.join()
+    bg_actual.join()
+    conc2_ok = actual_ok = 0
+    for rq, rep in zip(conc2_reqs, bg_conc2.rep):
+        if rep is None or not rep.startswith("{"):
+            rr = newest_race_report(racedir)
+            ctx.violation(("data race reported by the Go race detector between two simulators in one process" if "DATA RACE" in rr
+                           else "two simulators in one process: harness %s" % (rep or "no reply")[:160]),
+                          {"implrun_race_conc2_request": json.loads(rq), "reply": rep, "race_report": rr})
+        else:
+            bad = [x for x in json.loads(rep)["res"] if x.get("panic") or x.get("error") or not x.get("flows")]
+            if bad:
+                ctx.violation("two simulators in one process: a request failed: %s" % str(bad[0])[:200], {"implrun_race_conc2_request": json.loads(rq)})
+            else:
+                conc2_ok += 1
+    for (reqs, d), rep in zip(actual_cases, bg_actual.rep):
+        replay = {"implrun_race_conc_request": d}
+        if rep is None or not rep.startswith("{"):
+            rr = newest_race_report(racedir)
+            ctx.violation(("data race reported by the Go race detector while serving %d concurrent requests in actual-response mode" % len(reqs)
+                           if "DATA RACE" in rr else "actual-response mode: harness %s" % (rep or "no reply")[:160]),
+                          dict(replay, reply=rep, race_report=rr))
+            continue
+        wrong = []
+        for i, (ir_, a) in enumerate(zip(d["reqs"], json.loads(rep).get("actual") or [])):
+            if a.get("err") or a.get("status") != 200 or a.get("body") != "origin " + ir_["url"]:
+                wrong.append((i, ir_["url"], a))
+        if wrong:
+            i, url, a = wrong[0]
+            ctx.violation("actual-response mode, %d concurrent requests: the client of request %d (%s) received status %s body %r (%s)" % (
+                len(reqs), i, url, a.get("status"), (a.get("body") or "")[:60], a.get("err") or "answer to another request"),
+                dict(replay, wrong=wrong[:5]))
+        else:
+            actual_ok += 1
+
     # ---------------- concurrent lint plugins
     n_lint = 600 if thorough else 100
     lint_cases = []
     for f in glob.glob(os.path.join(C.plugin_dir(), "falco-c18b*")):
         os.remove(f)
     for b in range(n_lint):
-        k = rng.choice([2, 3, 4])
+        k = rng.choice([2, 3, 4, 6])
         names, expect = [], []
         for j in range(k):
             name = "c18b%dp%d" % (b, j)
+            kind = rng.choice(["ok"] * 7 + ["exit1", "badjson", "missing"])
             msgs = ["%s-diag%d" % (name, t) for t in range(rng.randint(1, 5))]
-            C.write_plugin(name, msgs, sleep_ms=rng.choice([0, 0, 0, 2, 10]))
+            C.write_plugin(name, msgs, sleep_ms=rng.choice([0, 0, 0, 2, 10, 40]), kind=kind)
             names.append(name)
-            expect += msgs
+            # what the linter must report for this plugin, in this place: its diagnostics, or ONE failure
+            expect += msgs if kind == "ok" else ["FAILED:" + name]
         vcl = "sub vcl_recv {\n" + "".join("  // @plugin: %s\n" % nm for nm in names) + '  set req.http.X-C18 = "1";\n}\n'
         lint_cases.append((vcl, expect, {"vcl": vcl, "procs": PROCS[b % 4]}))
     cdir = os.path.join(V.VERIF, "corpus", "C18")
@@ -320,16 +387,23 @@ def run(ctx):
             ctx.violation(what, dict(replay, reply=lr, race_report=rep))
             continue
         msgs = json.loads(lr)["messages"]
-        got = [m for m in msgs if "-diag" in m]
+        # projection: a plugin diagnostic is itself, a failure diagnostic is FAILED (its text names the command
+        # or its stderr, which is not compared); everything else the linter says about the program is dropped
+        got = []
+        for m in msgs:
+            if "-diag" in m and "Custom" not in m:
+                got.append(m)
+            elif "Custom linter command" in m or "Custom Linter" in m:
+                got.append("FAILED")
+        want = [("FAILED" if e.startswith("FAILED:") else e) for e in expect]
         diag_total += len(expect)
-        failed = [m for m in msgs if "fail" in m.lower() or "not found" in m.lower()]
-        if failed:
-            ctx.violation("lint plugins: %d plugins on one statement, each within the per-plugin timeout: %d reported as failed (%s)" % (
-                vcl.count("@plugin"), len(failed), failed[0][:120]), dict(replay, got=msgs))
-        elif sorted(got) != sorted(expect):
-            missing = sorted(set(expect) - set(got))
-            ctx.violation("lint plugins: %d diagnostics returned by the plugins, %d reported (missing %s)" % (len(expect), len(got), missing[:4]),
-                          dict(replay, got=got))
+        if sorted(got) != sorted(want):
+            missing = sorted(set(want) - set(got))
+            ctx.violation("lint plugins: %d plugins on one statement: reported %s, expected the diagnostics of the plugins that answer and one failure per plugin that does not (%d expected, %d reported; missing %s)" % (
+                vcl.count("@plugin"), got[:6], len(want), len(got), missing[:4]), dict(replay, got=msgs))
+        elif got != want:
+            ctx.violation("lint plugins: the diagnostics of %d plugins are not reported in annotation order: %s instead of %s" % (
+                vcl.count("@plugin"), got[:8], want[:8]), dict(replay, got=msgs))
         else:
             lint_ok += 1
 
@@ -347,7 +421,7 @@ def run(ctx):
         "slow_plugin_batches": [(c[0].count("@plugin"), "sum of run times / per-plugin timeout read from the source (%d ms)" % T) for c in slow_lint], "batches_equal_to_model_in_recorded_order": checked,
         "distinct_acquisition_orders_observed": len(orders), "batches_by_request_count": by_n, "batches_by_gomaxprocs": by_procs,
         "batches_with_all_permutations_searched": perm_searched, "matching_permutations_total": perm_matches,
-        "model_runs": len(mreqs),
+        "model_runs": len(mreqs), "two_simulator_batches_ok": conc2_ok, "actual_response_batches_ok": actual_ok,
         "plugin_batches": len(lint_cases), "plugin_batches_complete": lint_ok, "plugin_diagnostics": diag_total,
         "race_detector": "go build -race, GORACE=halt_on_error=1", "race_reports": len(glob.glob(os.path.join(racedir, "r.*"))),
     })
